@@ -8,6 +8,8 @@ from torch.utils.data import default_collate
 
 from vlib.core import Case, Facet, Refused, Violation, guarded
 
+# thorough-tier budgets of every facet are multiplied by this factor (sized for ~5-8 min on 16 cores)
+THOROUGH_SCALE = 5
 LEVEL = "exploration"
 RULE = ("pipeline facet: dataset mode of 1-4 items (fixed-shape tensors, ints, lists of views), return_ctx, per-sample ctx dicts "
         "with a common key set, batch 1-6, 1-4 harness collators with default_collate_mode in {before, after, None} that are pure "
